@@ -679,7 +679,9 @@ impl<'a> Gen<'a> {
                             fs.count_filters.push(f);
                         }
                     }
-                    if self.cfg.f_tags && self.t.chance(1, 3) {
+                    let want_count_tag =
+                        if self.cfg.bias_tags { self.t.chance(2, 3) } else { self.t.chance(1, 3) };
+                    if self.cfg.f_tags && want_count_tag {
                         let tname = self.fresh("t");
                         self.tags.push(TagInfo {
                             name: tname.clone(),
